@@ -15,3 +15,14 @@ func (s *Session) VerifDrainOutput() error {
 	defer s.out.Unlock()
 	return s.out.e.Flush()
 }
+
+// VerifStateLocked reports whether the state mutex is write-locked (or a writer
+// is waiting for it) at this moment: a reader of the session state would block.
+// The verification harness asks this while a connection write is pending.
+func (s *Session) VerifStateLocked() bool {
+	if s.stateMutex.TryRLock() {
+		s.stateMutex.RUnlock()
+		return false
+	}
+	return true
+}
